@@ -608,3 +608,17 @@ func (r *Region) OnlyThrough(d, u ssa.Instruction, edges []Edge) bool {
 	hit, _ := reach(siteOf(cd[0]), isInstr(lu), newCuts().addEdges(cur))
 	return !hit
 }
+
+// ReachFromEntry: can b be executed, starting at the root's entry, without crossing a cut.
+func (r *Region) ReachFromEntry(b ssa.Instruction, cuts *Cuts) bool {
+	cb := r.chain(b)
+	if cb == nil {
+		return false
+	}
+	for _, in := range cb {
+		if hit, _ := reach(entrySite(in.Parent()), isInstr(in), cuts); !hit {
+			return false
+		}
+	}
+	return true
+}
